@@ -639,6 +639,8 @@ class Interp:
         if isinstance(it, (list, tuple)):
             return list(it)
         if isinstance(it, PyList):
+            if getattr(it, "sym_view", None) is not None:
+                return self.as_sequence(it.sym_view)
             return list(it.items)
         if isinstance(it, PyDict):
             return list(it.d.keys()) + [e[0] for e in it.sym]
